@@ -472,8 +472,76 @@ package route
 //@ // p is one of the targets and has a positive effective weight
 //@ spec fun livePick(ts []*Target, p *Target) bool opaque = exists i int :: 0 <= i && i < len(ts) && p == ts[i] && ts[i].Weight > 0.0
 //@
+//@ // counting: filled entries among the first n slots of a ring; slot counts of the first n entries of the slot list
+//@ spec fun nfilled(ts []*Target, n int) int decreases n = n <= 0 ? 0 : nfilled(ts, n-1) + (ts[n-1] != nil ? 1 : 0)
+//@ spec fun sumN(sl byN, n int) int decreases n = n <= 0 ? 0 : sumN(sl, n-1) + sl[n-1].n
+//@
+//@ func lemmaSumNFrame
+//@   props C04
+//@   requires n <= len(a) && n <= len(b) && forall i int :: 0 <= i && i < n ==> a[i] == b[i]
+//@   assigns nothing
+//@   ensures sumN(a, n) == sumN(b, n)
+//@ func lemmaFilledFrame
+//@   props C04
+//@   requires n <= len(a) && n <= len(b) && forall i int :: 0 <= i && i < n ==> a[i] == b[i]
+//@   assigns nothing
+//@   ensures nfilled(a, n) == nfilled(b, n)
+//@ func lemmaFilledBound
+//@   props C04
+//@   requires n <= len(ts)
+//@   assigns nothing
+//@   ensures 0 <= nfilled(ts, n) && (n >= 0 ==> nfilled(ts, n) <= n)
+//@ func lemmaFillOne
+//@   props C04
+//@   requires n <= len(a) && n <= len(b) && 0 <= j && j < n && a[j] == nil && b[j] != nil && forall i int :: 0 <= i && i < n && i != j ==> a[i] == b[i]
+//@   assigns nothing
+//@   ensures nfilled(b, n) == nfilled(a, n) + 1
+//@ func lemmaLivePickIn
+//@   props C04
+//@   requires livePick(ts, p)
+//@   assigns nothing
+//@   ensures exists i int :: 0 <= i && i < len(ts) && p == ts[i]
+//@ func lemmaRatioBound
+//@   props C04
+//@   requires 0.0 < a && a <= b
+//@   assigns nothing
+//@   ensures 0.0 < a / b && a / b <= 1.0
+//@ func lemmaShareBound
+//@   props C04
+//@   requires x <= 1.0 && k >= 1
+//@   assigns nothing
+//@   ensures x / float64(k) <= 1.0 && (x >= 0.0 ==> x / float64(k) >= 0.0) && (x < 0.0 ==> x / float64(k) < 0.0)
+//@ func lemmaDivLe
+//@   props C04
+//@   requires a >= 0 && b >= 1
+//@   assigns nothing
+//@   ensures 0 <= a / b && a / b <= a
+//@ func lemmaModRange
+//@   props C04
+//@   requires a >= 0 && m > 0
+//@   assigns nothing
+//@   ensures 0 <= a % m && a % m < m
+//@ func lemmaRecipBound
+//@   props C04
+//@   requires n >= 1
+//@   assigns nothing
+//@   ensures 0.0 < 1.0 / float64(n) && 1.0 / float64(n) <= 1.0
+//@ func lemmaAllNilZero
+//@   props C04
+//@   requires n <= len(ts) && forall i int :: 0 <= i && i < n ==> ts[i] == nil
+//@   assigns nothing
+//@   ensures nfilled(ts, n) == 0
+//@ func lemmaFullNoNil
+//@   props C04
+//@   requires n <= len(ts) && 0 <= j && j < n && nfilled(ts, n) == n
+//@   assigns nothing
+//@   ensures ts[j] != nil
+//@
 //@ func (*Route).weighTargets
 //@   props C04
+//@   // integer quotients and remainders by a variable are opaque in this function: what is needed about them comes from
+//@   // the lemmas lemmaDivLe and lemmaModRange (keeps nonlinear integer arithmetic out of these queries)
+//@   opaque division
 //@   requires r != nil && wfTargets(r.Targets)
 //@   assigns Target.Weight, r.wTargets
 //@   ensures nopanic
@@ -481,14 +549,22 @@ package route
 //@   ensures forall j int :: 0 <= j && j < len(r.Targets) ==> 0.0 <= r.Targets[j].Weight && r.Targets[j].Weight <= 1.0
 //@   // a route with targets always has a ring to pick from
 //@   ensures len(r.Targets) > 0 ==> len(r.wTargets) > 0
-//@   // a target with zero weight is never on the ring; whatever is on the ring is one of the route's targets
-//@   ensures forall q int :: 0 <= q && q < len(r.wTargets) ==> r.wTargets[q] == nil || livePick(r.Targets, r.wTargets[q])
+//@   // the route is usable by every lookup: targets non-nil, a ring exists, every ring slot is one of the targets
+//@   ensures wfRoute(r)
+//@   // every ring slot holds one of the route's targets with a positive weight (none is empty; a zero weight is never picked)
+//@   ensures forall q int :: 0 <= q && q < len(r.wTargets) ==> r.wTargets[q] != nil && livePick(r.Targets, r.wTargets[q])
 //@   loop 1 invariant forall j int :: 0 <= j && j <= rangeindex && r.Targets[j].FixedWeight > 0.0 ==> r.Targets[j].FixedWeight <= sumFixed
 //@   loop 1 invariant forall j int :: 0 <= j && j <= rangeindex && !(r.Targets[j].FixedWeight > 0.0) ==> nFixed <= rangeindex
 //@   loop 1 invariant nFixed > 0 ==> exists j int :: 0 <= j && j <= rangeindex && r.Targets[j].FixedWeight > 0.0
 //@   loop 1 invariant 0 <= nFixed && nFixed <= rangeindex+1 && nFixed == nF(r.Targets, rangeindex+1) && sumFixed == sumF(r.Targets, rangeindex+1) && sumFixed >= 0.0
+//@   at "w := 1.0 / float64(len(r.Targets))" apply lemmaRecipBound(len(r.Targets))
+//@   at "r.wTargets = r.Targets" assert forall j int :: 0 <= j && j < len(r.wTargets) ==> r.wTargets[j] == r.Targets[j]
+//@   at "r.wTargets = r.Targets" assert forall j int :: 0 <= j && j < len(r.wTargets) ==> exists i int :: 0 <= i && i < len(r.Targets) && r.wTargets[j] == r.Targets[i]
+//@   loop 2 invariant len(r.Targets) >= 1 ==> 0.0 < w && w <= 1.0
 //@   loop 2 invariant forall j int :: 0 <= j && j <= rangeindex ==> r.Targets[j].Weight == w
 //@   loop 2 invariant forall j int :: 0 <= j && j <= rangeindex ==> 0.0 <= r.Targets[j].Weight && r.Targets[j].Weight <= 1.0
+//@   at "dynamic := (1 - sumFixed) / float64(len(r.Targets)-nFixed)" apply lemmaShareBound(1.0 - sumFixed, len(r.Targets) - nFixed)
+//@   at "t.Weight = t.FixedWeight / norm" apply lemmaRatioBound(t.FixedWeight, norm)
 //@   loop 3 invariant norm == normOf(r.Targets) && dynamic == dynOf(r.Targets) && nF(r.Targets, len(r.Targets)) != 0
 //@   loop 3 invariant forall j int :: 0 <= j && j <= rangeindex ==> r.Targets[j].Weight == wexp(r.Targets, j)
 //@   loop 3 invariant sumFixed > 0.0 && nFixed > 0 && nFixed <= len(r.Targets)
@@ -498,21 +574,46 @@ package route
 //@   loop 3 invariant forall j int :: 0 <= j && j < len(r.Targets) && r.Targets[j].FixedWeight > 0.0 ==> r.Targets[j].FixedWeight <= norm
 //@   loop 3 invariant forall j int :: 0 <= j && j < len(r.Targets) && !(r.Targets[j].FixedWeight > 0.0) ==> nFixed < len(r.Targets)
 //@   loop 3 invariant forall j int :: 0 <= j && j <= rangeindex ==> 0.0 <= r.Targets[j].Weight && r.Targets[j].Weight <= 1.0
+//@   loop 3 invariant forall j int :: 0 <= j && j <= rangeindex && r.Targets[j].FixedWeight > 0.0 ==> r.Targets[j].Weight > 0.0
 //@   loop 4 invariant len(slots) == len(r.Targets) && fresh(slots)
 //@   loop 4 invariant forall j int :: 0 <= j && j < len(r.Targets) ==> 0.0 <= r.Targets[j].Weight && r.Targets[j].Weight <= 1.0
 //@   loop 4 invariant forall j int :: 0 <= j && j <= rangeindex ==> slots[j].i == j && 0 <= slots[j].n && slots[j].n <= 10000
 //@   loop 4 invariant 0 <= usedSlots
 //@   loop 4 invariant usedSlots <= 10000 * (rangeindex + 1)
 //@   loop 4 invariant forall j int :: 0 <= j && j <= rangeindex ==> slots[j].n <= usedSlots
+//@   // the ring will have exactly as many slots as the slot counts add up to
+//@   loop 4 iteration apply lemmaSumNFrame(old(slots), slots, rangeindex)
+//@   loop 4 invariant usedSlots == sumN(slots, rangeindex + 1)
 //@   loop 4 invariant forall j int :: 0 <= j && j <= rangeindex && slots[j].n > 0 ==> r.Targets[j].Weight > 0.0
 //@   loop 4 invariant forall j int :: 0 <= j && j <= rangeindex && r.Targets[j].Weight > 0.0 ==> slots[j].n >= 1
 //@   // filling the ring: every slot is empty or holds one of the route's targets with a positive weight
 //@   loop 5 invariant len(targets) == usedSlots && fresh(targets) && len(slots) == len(r.Targets)
+//@   at "targets := make([]*Target, usedSlots)" apply lemmaAllNilZero(targets, usedSlots)
+//@   // counting: after the first slot-list entries have been placed, exactly their slot counts' worth of ring slots are filled
+//@   loop 5 invariant sumN(slots, len(slots)) == usedSlots && forall j int :: 0 <= j && j < len(slots) ==> 0 <= slots[j].n
+//@   loop 5 invariant nfilled(targets, usedSlots) == sumN(slots, rangeindex + 1)
+//@   loop 6 invariant sumN(slots, len(slots)) == usedSlots && s.n == slots[rangeindex + 1].n && 0 <= k && k <= s.n
+//@   loop 6 invariant nfilled(targets, usedSlots) == sumN(slots, rangeindex + 1) + k
+//@   at "targets[next] = r.Targets[s.i]" apply lemmaFillOne(iterold(targets), targets, usedSlots, next)
+//@   at "targets[next] = r.Targets[s.i]" apply lemmaModRange(next + step, usedSlots)
+//@   at "next, step := 0, usedSlots/s.n" apply lemmaDivLe(usedSlots, s.n)
+//@   at "for targets[next] != nil {" apply lemmaModRange(next + 1, usedSlots)
+//@   loop 7 invariant sumN(slots, len(slots)) == usedSlots && s.n == slots[rangeindex + 1].n && 0 <= k && k < s.n
+//@   loop 7 invariant nfilled(targets, usedSlots) == sumN(slots, rangeindex + 1) + k
+//@   // at the end every ring slot is filled: no pick can return nil
+//@   at "r.wTargets = targets" apply forall q int :: lemmaFullNoNil(targets, usedSlots, q)
+//@   at "r.wTargets = targets" assert forall q int :: 0 <= q && q < usedSlots ==> targets[q] != nil && livePick(r.Targets, targets[q])
+//@   at "r.wTargets = targets" apply forall q int :: lemmaLivePickIn(r.Targets, targets[q])
+//@   at "r.wTargets = targets" assert forall q int :: 0 <= q && q < len(r.wTargets) ==> exists i int :: 0 <= i && i < len(r.Targets) && r.wTargets[q] == r.Targets[i]
 //@   loop 5 invariant forall j int :: 0 <= j && j < len(slots) ==> 0 <= slots[j].i && slots[j].i < len(r.Targets) && slots[j].n <= usedSlots && (slots[j].n > 0 ==> r.Targets[slots[j].i].Weight > 0.0)
 //@   loop 5 invariant forall q int :: 0 <= q && q < usedSlots ==> targets[q] == nil || livePick(r.Targets, targets[q])
-//@   loop 6 invariant len(targets) == usedSlots && fresh(targets) && 0 <= next && next < usedSlots && s.n > 0 && s.n <= usedSlots && 0 <= s.i && s.i < len(r.Targets) && r.Targets[s.i].Weight > 0.0
+//@   loop 6 invariant len(targets) == usedSlots && fresh(targets) && s.n > 0 && s.n <= usedSlots && 0 <= s.i && s.i < len(r.Targets) && 0 <= step && step <= usedSlots
+//@   loop 6 invariant 0 <= next && next < usedSlots
+//@   loop 6 invariant r.Targets[s.i].Weight > 0.0
 //@   loop 6 invariant forall q int :: 0 <= q && q < usedSlots ==> targets[q] == nil || livePick(r.Targets, targets[q])
-//@   loop 7 invariant len(targets) == usedSlots && fresh(targets) && 0 <= next && next < usedSlots && s.n > 0 && s.n <= usedSlots && 0 <= s.i && s.i < len(r.Targets) && r.Targets[s.i].Weight > 0.0
+//@   loop 7 invariant len(targets) == usedSlots && fresh(targets) && s.n > 0 && s.n <= usedSlots && 0 <= s.i && s.i < len(r.Targets) && 0 <= step && step <= usedSlots
+//@   loop 7 invariant 0 <= next && next < usedSlots
+//@   loop 7 invariant r.Targets[s.i].Weight > 0.0
 //@   loop 7 invariant forall q int :: 0 <= q && q < usedSlots ==> targets[q] == nil || livePick(r.Targets, targets[q])
 //@
 //@ // ---- C04 / C05: 'route weight' spreads a share over the matching targets -----------------------------------------
